@@ -5,7 +5,7 @@ ENTRY = {'title': 'Payload decoding conforms to the ecoNET wire layout for every
  'technique': 'Lean 4 round-trip theorems decode(encode m ++ rest) = (valOf m, rest) for every structure and the whole sensor chain (wire layout '
               'written once as encoders = the specification) + correspondence: Lean-encoded messages decoded by the real frames, plus a malformed '
               'stream',
- 'prop_modules': ['C05Sensors', 'C05Params', 'C05Ctx', 'C05CtxDevice', 'C05Device', 'C05Short', 'C05Uid', 'C05ShortParams', 'TieUid', 'TieParams', 'TieSchedule', 'TieStructParams', 'TieStructSensors'],
+ 'prop_modules': ['C05Sensors', 'C05Params', 'C05Ctx', 'C05CtxDevice', 'C05Device', 'C05Short', 'C05Uid', 'C05ShortParams', 'TieUid', 'TieParams', 'TieSchedule', 'TieStructParams', 'TieStructSensors', 'TieStructSections'],
  'uses_tables': True,
  'level_text': 'Proof: for ALL well-formed abstract messages and ALL trailing bytes the decoder model run on the Lean-defined encoding returns '
                'exactly the encoded values and the remainder: the 16-section sensor chain (`rt_sensorData`, every presence combination; per-section '
@@ -28,7 +28,15 @@ ENTRY = {'title': 'Payload decoding conforms to the ecoNET wire layout for every
  'level_note': 'All structures have a round-trip theorem. Rests on correspondence: model <-> structures/*.py, purity, error classes of malformed '
                'payloads, formatted model name (printable ASCII only), UTF-8 validity = bytes.decode. Trusted: struct float conversion, inet_ntop '
                'text.',
- 'clauses': {'code tie of the thermostat-sensors section (round 8): the SOURCE TEXT of ThermostatSensorsStructure (._unpack_thermostat_sensors, '
+ 'clauses': {'code tie of the short sensor sections and the mixer-sensors section (round 8): the SOURCE TEXT of FuelLevelStructure / BoilerLoadStructure / '
+             'PendingAlertsStructure / FanPowerStructure / BoilerPowerStructure / FuelConsumptionStructure / OutputFlagsStructure .decode and of '
+             'MixerSensorsStructure (._unpack_mixer_sensors, ._mixer_sensors, .decode), translated on every run, equals Sens.decFuelLevel / decBoilerLoad / '
+             'decPendingAlerts / decOptF32 / decOutputFlags / decMixer / decMixers for every message, offset, instance and data argument — merged fields, '
+             'returned offset (pending alerts: offset + 1 + count), exception class by the slot that is cut':
+                 'theorem (TieStructSections.fuel_level_decode_eq, boiler_load_decode_eq, pending_alerts_decode_eq, fan_power_decode_eq, '
+                 'boiler_power_decode_eq, fuel_consumption_decode_eq, output_flags_decode_eq, unpack_mixer_eq, mixer_fold, mixer_sensors_decode_eq, '
+                 'mixP_model, decMixers_shape, the *_rest lemmas) + translator validation (harness/pycode.py group sensors)',
+             'code tie of the thermostat-sensors section (round 8): the SOURCE TEXT of ThermostatSensorsStructure (._unpack_thermostat_sensors, '
              '._thermostat_sensors, .decode), translated on every run, equals Sens.decThermostats / thermoEntries for every message, offset, '
              'instance and data argument — masks shifted once per slot (connected or not), index = position, 9 bytes per slot, error '
              'classes': 'theorem (TieStructSensors.unpack_thermostat_eq, thermostat_fold, thermostat_sensors_decode_eq, entriesP_model, '
